@@ -109,4 +109,42 @@ Fixpoint is_real (f : field) (k : Z) : bool :=
 Definition spec_nframes (id : N) : Z :=
   r_fo (db id) + zlen (r_data (db id)) / r_spf (db id).
 
+(* no PHASE shifts an end-of-field below zero (where _GD_GetEOF clamps) *)
+Fixpoint noclamp (f : field) : Prop :=
+  match f with
+  | Raw _ | Index => True
+  | Un _ g => noclamp g
+  | Phase g sh => noclamp g /\ match eof db g with Fin x => 0 <= x - sh | Inf => True end
+  | Bin _ g h | Mplex g h _ _ => noclamp g /\ noclamp h
+  | Tri _ g h l => noclamp g /\ noclamp h /\ noclamp l
+  end.
+
+Fixpoint noclampb (f : field) : bool :=
+  match f with
+  | Raw _ | Index => true
+  | Un _ g => noclampb g
+  | Phase g sh => noclampb g && match eof db g with Fin x => 0 <=? x - sh | Inf => true end
+  | Bin _ g h | Mplex g h _ _ => noclampb g && noclampb h
+  | Tri _ g h l => noclampb g && noclampb h && noclampb l
+  end.
+
+
+Fixpoint nophase (f : field) : Prop :=
+  match f with
+  | Raw _ | Index => True
+  | Phase _ _ => False
+  | Un _ g => nophase g
+  | Bin _ g h | Mplex g h _ _ => nophase g /\ nophase h
+  | Tri _ g h l => nophase g /\ nophase h /\ nophase l
+  end.
+
+Fixpoint nophaseb (f : field) : bool :=
+  match f with
+  | Raw _ | Index => true
+  | Phase _ _ => false
+  | Un _ g => nophaseb g
+  | Bin _ g h | Mplex g h _ _ => nophaseb g && nophaseb h
+  | Tri _ g h l => nophaseb g && nophaseb h && nophaseb l
+  end.
+
 End Limits.
